@@ -14,6 +14,12 @@ func (cs ClientState) ExportMetadata(store storetypes.KVStore) []exported.Genesi
 		gm = append(gm, clienttypes.NewGenesisMetadata(key, val))
 		return false
 	})
+	// the iteration keys drive consensus state pruning; without them an imported
+	// client would never prune the consensus states it was restored with
+	IterateConsensusStateAscending(store, func(height exported.Height) bool {
+		gm = append(gm, clienttypes.NewGenesisMetadata(IterationKey(height), GetIterationKey(store, height)))
+		return false
+	})
 	if len(gm) == 0 {
 		return nil
 	}
